@@ -34,7 +34,7 @@ def abs(x):
             z0_idx = x.real == 0
             nz_idx = x.real != 0
             signs = np.zeros(x.shape, dtype=complex)
-            signs[nz_idx] = np.sign(x[nz_idx]).real + 0j
+            signs[nz_idx] = np.sign(x[nz_idx].real) + 0j
             signs[z0_idx] = np.sign(x[z0_idx].imag) + 0j
             return x * signs
         else:
